@@ -470,6 +470,8 @@ theorem main0Match_E {f : F} (hf : FE env.tbl f) {fuel : Nat} {cfg : Cfg} {scope
   | raise e =>
     simp only at heq
     split at heq
+    · simp at heq
+    split at heq
     · split at heq
       · simp at heq
       · split at heq <;> simp at heq
